@@ -348,10 +348,27 @@ Definition no_object (b : board) (c : Z) : Prop :=
 Definition snprintf_written (bound needed : Z) : Z := Z.min bound needed.
 Definition reg_unknown_written (needed : Z) : Z := snprintf_written REG_UNKNOWN_BOUND needed.
 
+(* supla_esp_input_set_active_triggers: an action-trigger config activates only what the input offers *)
+Definition at_active (cap requested : Z) : Z := Z.land cap requested.
+(* the action-trigger branch of supla_esp_channel_config_result is taken *)
+Definition at_config (b : board) (id : Z) (p scratch : list Z) : bool :=
+  reaches_handler (b_devcfg b) id p scratch
+  && ((id =? CALL_GET_CONFIG_RESULT) || (id =? CALL_SET_CONFIG))
+  && (nthz p CC_CHANNEL <? CHANNEL_MAX)
+  && negb ((0 <? s32 (le32 p CC_FUNC)) && (nthz p CC_TYPE =? 0) && (le16 p CC_SIZE =? 0))
+  && (s32 (le32 p CC_FUNC) =? FNC_ACTIONTRIGGER) && (nthz p CC_TYPE =? 0) && (le16 p CC_SIZE =? ATC_SIZE).
+(* active_triggers of every input slot after the message *)
+Definition active_after (b : board) (act : list Z) (id : Z) (p scratch : list Z) : list Z :=
+  if at_config b id p scratch then
+    map (fun i => if i_channel (input_at b i) =? nthz p CC_CHANNEL
+                  then at_active (i_atcap (input_at b i)) (le32 p (CC_HDR + ATC_ACTIONS))
+                  else nth (Z.to_nat i) act 0) (slots INPUT_MAX)
+  else act.
+
 (* ================= wire interface ================= *)
 (* events: 0 CFG devcfg fwupd nrel (gpio ch flags chflags)* nrs (up down)* nin (gpio type flags relay_gpio channel atcap)*
            1 GATE | 2 SRV call rr : payload | 3 ADV us | 4 SKEW us (the clock runs on, no timer fires)
-   outputs: 0 EV k | 1 V call result has_data | 2 MW table index *)
+   outputs: 0 EV k | 1 V call result has_data | 2 MW table index | 3 AT input active_triggers *)
 Fixpoint take_relays (n : nat) (l : list Z) : list relay * list Z :=
   match n, l with
   | S k, g :: c :: f :: cf :: r => let '(rs, rest) := take_relays k r in ({| r_gpio := g; r_channel := c; r_flags := f; r_chflags := cf |} :: rs, rest)
@@ -392,15 +409,15 @@ Definition verdict_ints (id : Z) (v : verdict) : list Z :=
   | VDataError => [id; SRPC_RESULT_DATA_ERROR; 0]
   end.
 
-Record mstate := { m_board : option board; m_scratch : list Z; m_k : Z; m_armed : list Z }.
+Record mstate := { m_board : option board; m_scratch : list Z; m_k : Z; m_armed : list Z; m_active : list Z }.
 
 (* the code of the tree as it will be after the proposed repair *)
 Definition CURRENT_FIXED : bool := true.
 
 Definition step_wire (fixed : bool) (s : mstate) (w : wire) : mstate * list wire :=
   let '(k, a, p) := w in
-  if k =? 0 then ({| m_board := Some (board_of_ints a); m_scratch := m_scratch s; m_k := m_k s; m_armed := [] |}, [])
-  else if k =? 1 then ({| m_board := None; m_scratch := m_scratch s; m_k := m_k s; m_armed := [] |}, [])
+  if k =? 0 then ({| m_board := Some (board_of_ints a); m_scratch := m_scratch s; m_k := m_k s; m_armed := []; m_active := map (fun _ => 0) (slots INPUT_MAX) |}, [])
+  else if k =? 1 then ({| m_board := None; m_scratch := m_scratch s; m_k := m_k s; m_armed := []; m_active := [] |}, [])
   else if k =? 2 then
     let id := hd 0 a in
     let d := scratch_after (m_scratch s) p in
@@ -410,9 +427,14 @@ Definition step_wire (fixed : bool) (s : mstate) (w : wire) : mstate * list wire
               | None => []
               end in
     let armed' := match m_board s with Some b => armed_after b (m_armed s) id p (m_scratch s) | None => m_armed s end in
-    ({| m_board := m_board s; m_scratch := d; m_k := m_k s + 1; m_armed := armed' |},
-     mk 0 [m_k s] [] :: mk 1 (verdict_ints id v) [] :: mw)
-  else ({| m_board := m_board s; m_scratch := m_scratch s; m_k := m_k s + 1; m_armed := m_armed s |}, [mk 0 [m_k s] []]).
+    let act' := match m_board s with Some b => active_after b (m_active s) id p (m_scratch s) | None => m_active s end in
+    let atl := match m_board s with
+              | Some b => map (fun i => mk 3 [i; nth (Z.to_nat i) act' 0] [])
+                              (filter (fun i => negb (i_channel (input_at b i) =? 255)) (slots (len (b_inputs b))))
+              | None => [] end in
+    ({| m_board := m_board s; m_scratch := d; m_k := m_k s + 1; m_armed := armed'; m_active := act' |},
+     mk 0 [m_k s] [] :: mk 1 (verdict_ints id v) [] :: atl ++ mw)
+  else ({| m_board := m_board s; m_scratch := m_scratch s; m_k := m_k s + 1; m_armed := m_armed s; m_active := m_active s |}, [mk 0 [m_k s] []]).
 
 Fixpoint run_wire (fixed : bool) (s : mstate) (ws : list wire) : list wire :=
   match ws with
@@ -420,4 +442,4 @@ Fixpoint run_wire (fixed : bool) (s : mstate) (ws : list wire) : list wire :=
   | w :: r => let '(s', o) := step_wire fixed s w in o ++ run_wire fixed s' r
   end.
 Definition main_wire (ws : list wire) : list wire :=
-  run_wire CURRENT_FIXED {| m_board := None; m_scratch := []; m_k := 0; m_armed := [] |} ws.
+  run_wire CURRENT_FIXED {| m_board := None; m_scratch := []; m_k := 0; m_armed := []; m_active := [] |} ws.
